@@ -269,6 +269,17 @@ def run(ctx, ck):
                 break
         return it_
     g = m.func('mininec.Connected_Geobj.pulse_iter')
+    for _ in range(3):
+        # (`return self.signed_pulses()`: the generator it hands on is the sequence)
+        b_ = [x_ for x_ in g.body() if not (isinstance(x_, ast.Expr) and isinstance(x_.value, ast.Constant))]
+        if not any(isinstance(y_, (ast.Yield, ast.YieldFrom)) for y_ in walk_no_nested(g.node)) and len(b_) == 1 and \
+           isinstance(b_[0], ast.Return) and isinstance(b_[0].value, ast.Call) and not b_[0].value.args and \
+           not b_[0].value.keywords and isinstance(b_[0].value.func, ast.Attribute) and norm(b_[0].value.func.value) == 'self':
+            g2_ = m.resolve_method(g.cls.name, b_[0].value.func.attr)
+            if g2_ is not None and any(isinstance(y_, (ast.Yield, ast.YieldFrom)) for y_ in walk_no_nested(g2_.node)):
+                g = g2_
+                continue
+        break
     ok = True
     why = None
     n_each = 0
@@ -357,4 +368,9 @@ def run(ctx, ck):
     ck.rule('R-COUNT.end-index', 'predicted index of the end pulses == number of pulses created before them (all end states)')
     ncases = check_end_index(ctx, ck)
     ck.floor('end-state cases', ncases, 30)
+    # the pulse a junction line is attributed to really lies on that end: its outer half is on the neighbour's segment
+    # touching the junction (shared with C02 / C06 / C12)
+    ck.rule('R-SIB.junction-geometry', 'outer half of a junction pulse on the neighbour segment touching the junction')
+    from ._creation import check_neighbour_segment
+    check_neighbour_segment(ctx, ck, rule='R-SIB.junction-geometry')
     ck.undecided += ['correct sign / membership of conn[K] for every junction topology (runtime graph)']
